@@ -361,6 +361,12 @@ pub fn worker_main(engine: &dyn Engine, tier: Tier, shard: usize, n: usize, from
         if my_idx < from {
             return;
         }
+        // a shard that has already found 40 unattributed violations stops evaluating: the verdict
+        // cannot change any more, and on a badly broken tree every further case may cost seconds
+        if stats.violations >= 40 {
+            *stats.counters.entry("cases_skipped_after_40_violations".to_string()).or_insert(0) += 1;
+            return;
+        }
         {
             use std::os::unix::fs::FileExt;
             let line = format!("{}\t{}\n", my_idx, serde_json::to_string(case).unwrap());
@@ -511,7 +517,8 @@ fn death_failure(engine: &dyn Engine, case: &str, why: &str) -> Failure {
     Failure {
         clause: clause.into(),
         site: String::new(),
-        features: engine.features(case),
+        // (the case may be one the harness's own parser cannot read)
+        features: std::panic::catch_unwind(std::panic::AssertUnwindSafe(|| engine.features(case))).unwrap_or_default(),
         detail: format!("{} ({})", clause, why),
     }
 }
@@ -697,6 +704,7 @@ pub fn check_main(engine: &dyn Engine, tier: Tier) -> i32 {
     let dir = format!("/verif/replays/{}", id);
     let _ = std::fs::remove_dir_all(&dir);
     let mut sig_seen: HashSet<String> = HashSet::new();
+    let mut unreproduced: Vec<String> = vec![];
     for (case, fs) in &violations {
         let sig = fs.iter().map(|f| format!("{}@{}", f.clause, f.site)).collect::<Vec<_>>().join("+");
         // report at most 3 replay files per signature
@@ -714,11 +722,10 @@ pub fn check_main(engine: &dyn Engine, tier: Tier) -> i32 {
             // witnessed violation even if a quiet process does not show it again
             notes.push(format!("the failure of case {} was observed in the sharded run and did not recur on replay in a quiet process: the outcome depends on scheduling", trunc(&format!("{:?}", case), 120)));
         } else if same != sig {
-            println!(
-                "MACHINERY-ERROR property={} failure did not reproduce on replay (harness nondeterminism): case={} first={} replay={}",
-                id, trunc(&format!("{:?}", case), 200), sig, same
-            );
-            return 2;
+            // not a verdict; it ends the run as a machinery error unless another violation of this
+            // run does reproduce (that one stands on its own replay)
+            unreproduced.push(format!("case={} first={} replay={}", trunc(&format!("{:?}", case), 200), sig, same));
+            continue;
         }
         std::fs::create_dir_all(&dir).ok();
         let path = format!("{}/{:03}.json", dir, reported);
@@ -729,6 +736,14 @@ pub fn check_main(engine: &dyn Engine, tier: Tier) -> i32 {
         if reported >= 12 {
             break;
         }
+    }
+
+    if let Some(u) = unreproduced.first() {
+        if reported == 0 {
+            println!("MACHINERY-ERROR property={} failure did not reproduce on replay (harness nondeterminism): {}", id, u);
+            return 2;
+        }
+        notes.push(format!("{} failing case(s) of the sharded run did not fail the same way on replay and are not reported (first: {}); the reported violations did", unreproduced.len(), u));
     }
 
     // 4. evidence
